@@ -6,6 +6,7 @@ import (
 	"fmt"
 	"go/constant"
 	"go/token"
+	"go/types"
 	"sort"
 	"strings"
 
@@ -298,6 +299,9 @@ func (c *Ctx) unitOf(v ssa.Value, seen map[ssa.Value]bool) []string {
 		return nil // reading the running total itself
 	case *ssa.UnOp:
 		if x.Op == token.MUL {
+			if y := c.throughStruct(x); y != ssa.Value(x) {
+				return c.unitOf(y, seen)
+			}
 			// local accumulator cell: union of what is stored
 			if a, ok := x.X.(*ssa.Alloc); ok && a.Referrers() != nil {
 				var out []string
@@ -307,6 +311,17 @@ func (c *Ctx) unitOf(v ssa.Value, seen map[ssa.Value]bool) []string {
 					}
 				}
 				return out
+			}
+			// an element of a per-document accumulator slice handed from function to
+			// function: union of what is stored into its elements, wherever
+			if ia, ok := x.X.(*ssa.IndexAddr); ok {
+				if vals := c.sliceElemStores(ia.X); len(vals) > 0 {
+					var out []string
+					for _, sv := range vals {
+						out = append(out, c.unitOf(sv, seen)...)
+					}
+					return out
+				}
 			}
 		}
 	}
@@ -418,8 +433,14 @@ func init() {
 						}
 						// docs lane, COUNT: the key must come from ranging over a per-document set made in this function
 						if lane == "docs" && us == "COUNT" {
-							if !keyFromLocalSetRange(mu.Key) {
+							if !keyFromLocalSetRange(mu.Key) && !keyIsRangeIndex(mu.Key) {
 								r.bad(key, fnName(fn), c.pos(mu.Pos()), "document count is incremented per occurrence rather than once per document: the key does not come from ranging over a per-document set")
+								continue
+							}
+							// every member of the set counts: the only test allowed between the loop and
+							// the increment is presence (a nil test), never a property of the field's content
+							if g := contentGuard(mu); g != "" {
+								r.bad(key, fnName(fn), c.pos(mu.Pos()), "the document count of a field is incremented only when "+g+": a document that has the field but fails that test is not counted")
 								continue
 							}
 						}
@@ -519,9 +540,24 @@ func init() {
 						continue
 					}
 					ap := accessPath(mu.Map)
-					ex, ok := mu.Value.(*ssa.Extract)
+					// (a record decoded by a helper into a struct: the value the helper stored in that field)
+					ex, ok := c.throughStruct(mu.Value).(*ssa.Extract)
 					if !ok {
 						continue
+					}
+					if call, isCall := ex.Tuple.(*ssa.Call); isCall && call.Parent() != lf && order[ex.Tuple] == 0 {
+						// count the decoder calls of the function that decodes the record
+						n = 0
+						for _, b2 := range call.Parent().Blocks {
+							for _, i2 := range b2.Instrs {
+								if c2, ok := i2.(*ssa.Call); ok {
+									if sc := c2.Call.StaticCallee(); sc != nil && (funcFullName(sc) == "encoding/binary.Uvarint" || c.isUvarintDecoder(sc)) {
+										n++
+										order[c2] = n
+									}
+								}
+							}
+						}
 					}
 					if strings.HasSuffix(ap, ".fieldDocs") {
 						dIdx = append(dIdx, order[ex.Tuple])
@@ -857,4 +893,210 @@ func varargValues(v ssa.Value) []ssa.Value {
 		out = append(out, vals[i])
 	}
 	return out
+}
+
+// keyIsRangeIndex: k is the index of a range loop over a slice (each index is
+// visited once per execution of the loop).
+func keyIsRangeIndex(k ssa.Value) bool {
+	bin, ok := stripConv(k).(*ssa.BinOp)
+	if !ok || bin.Op != token.ADD {
+		return false
+	}
+	phi, ok := bin.X.(*ssa.Phi)
+	return ok && phi.Comment == "rangeindex"
+}
+
+// contentGuard: a branch condition, other than a loop condition or a nil test,
+// that governs ins inside its function, in condCanon form; "" when none.
+func contentGuard(ins ssa.Instruction) string {
+	for b := ins.Block(); b != nil; b = b.Idom() {
+		idom := b.Idom()
+		if idom == nil {
+			return ""
+		}
+		ifi, ok := idom.Instrs[len(idom.Instrs)-1].(*ssa.If)
+		if !ok || len(b.Preds) != 1 || isLoopHeader(idom) {
+			continue
+		}
+		pol := idom.Succs[0] == b
+		if !pol && idom.Succs[1] != b {
+			continue
+		}
+		if bin, ok := ifi.Cond.(*ssa.BinOp); ok && (isNilConst(bin.X) || isNilConst(bin.Y)) {
+			continue
+		}
+		return condCanon(ifi.Cond, pol, nil)
+	}
+	return ""
+}
+
+// sliceElemStores: the values stored into elements of "the same slice" as v:
+// v itself, the argument it was received as, the parameters and captured
+// variables of the other functions that argument is handed to.
+func (c *Ctx) sliceElemStores(v ssa.Value) []ssa.Value {
+	if _, ok := v.Type().Underlying().(*types.Slice); !ok {
+		return nil
+	}
+	roots := map[ssa.Value]bool{v: true}
+	for round := 0; round < 4; round++ {
+		n := len(roots)
+		for root := range roots {
+			switch x := root.(type) {
+			case *ssa.Parameter:
+				for _, site := range c.callsTo(x.Parent()) {
+					if a := argFor(site.Common(), x); a != nil {
+						roots[a] = true
+					}
+				}
+			case *ssa.FreeVar:
+				// the captured variable: binding i of every closure made of this function
+				for _, fn := range c.srcFns {
+					for _, b := range fn.Blocks {
+						for _, ins := range b.Instrs {
+							if mc, ok := ins.(*ssa.MakeClosure); ok && mc.Fn == ssa.Value(x.Parent()) {
+								for i, fv := range x.Parent().FreeVars {
+									if fv == x && i < len(mc.Bindings) {
+										roots[mc.Bindings[i]] = true
+									}
+								}
+							}
+						}
+					}
+				}
+			}
+			if root.Referrers() == nil {
+				continue
+			}
+			for _, ref := range *root.Referrers() {
+				switch y := ref.(type) {
+				case ssa.CallInstruction:
+					if sc := y.Common().StaticCallee(); sc != nil && c.inRoot(sc) && sc.Blocks != nil {
+						for i, a := range y.Common().Args {
+							if a == root && i < len(sc.Params) {
+								roots[sc.Params[i]] = true
+							}
+						}
+					}
+				case *ssa.MakeClosure:
+					for i, bnd := range y.Bindings {
+						if bnd == root {
+							roots[y.Fn.(*ssa.Function).FreeVars[i]] = true
+						}
+					}
+				case *ssa.Store:
+					// spilled into a local cell (a variable captured by a closure lives in one)
+					if a, ok := y.Addr.(*ssa.Alloc); ok && y.Val == root {
+						roots[a] = true
+					}
+				case *ssa.UnOp:
+					// a load of such a cell
+					if _, isPtr := root.Type().Underlying().(*types.Pointer); isPtr && y.Op == token.MUL && y.X == root {
+						roots[y] = true
+					}
+				}
+			}
+		}
+		if len(roots) == n {
+			break
+		}
+	}
+	var out []ssa.Value
+	for _, fn := range c.srcFns {
+		for _, b := range fn.Blocks {
+			for _, ins := range b.Instrs {
+				st, ok := ins.(*ssa.Store)
+				if !ok {
+					continue
+				}
+				if ia, ok := st.Addr.(*ssa.IndexAddr); ok && roots[ia.X] {
+					out = append(out, st.Val)
+				}
+			}
+		}
+	}
+	return out
+}
+
+// throughStruct: v reads field f of a local struct that was filled by the
+// result of an in-package helper (rest, err := s.readRecord(…); rest.docs):
+// the one value the helper stores into field f of the struct it returns.
+// Otherwise v.
+func (c *Ctx) throughStruct(v ssa.Value) ssa.Value {
+	var src ssa.Value
+	field := -1
+	switch x := v.(type) {
+	case *ssa.UnOp:
+		fa, ok := x.X.(*ssa.FieldAddr)
+		if !ok || x.Op != token.MUL {
+			return v
+		}
+		a, ok := fa.X.(*ssa.Alloc)
+		if !ok || a.Referrers() == nil {
+			return v
+		}
+		for _, ref := range *a.Referrers() {
+			if st, ok := ref.(*ssa.Store); ok && st.Addr == ssa.Value(a) {
+				if src != nil {
+					return v
+				}
+				src = st.Val
+			}
+		}
+		field = fa.Field
+	case *ssa.Field:
+		src, field = x.X, x.Field
+	default:
+		return v
+	}
+	if src == nil {
+		return v
+	}
+	idx := 0
+	if ex, ok := src.(*ssa.Extract); ok {
+		src, idx = ex.Tuple, ex.Index
+	}
+	call, ok := src.(*ssa.Call)
+	if !ok {
+		return v
+	}
+	h := call.Call.StaticCallee()
+	if h == nil || !c.inRoot(h) || h.Blocks == nil {
+		return v
+	}
+	var found ssa.Value
+	for _, b := range h.Blocks {
+		ret, ok := b.Instrs[len(b.Instrs)-1].(*ssa.Return)
+		if !ok || b == h.Recover || idx >= len(ret.Results) {
+			continue
+		}
+		ld, ok := ret.Results[idx].(*ssa.UnOp)
+		if !ok || ld.Op != token.MUL {
+			continue
+		}
+		a, ok := ld.X.(*ssa.Alloc)
+		if !ok || a.Referrers() == nil {
+			continue
+		}
+		for _, ref := range *a.Referrers() {
+			fa, ok := ref.(*ssa.FieldAddr)
+			if !ok || fa.Field != field {
+				continue
+			}
+			for _, r2 := range *fa.Referrers() {
+				if st, ok := r2.(*ssa.Store); ok && st.Addr == ssa.Value(fa) {
+					if _, isConst := st.Val.(*ssa.Const); isConst {
+						continue
+					}
+					if found != nil && found != st.Val {
+						return v
+					}
+					found = st.Val
+				}
+			}
+		}
+	}
+	if found == nil {
+		return v
+	}
+	return found
 }
